@@ -20,7 +20,10 @@ def c16 (s : IntSt) (ln : Nat) (t : List String) : Option (IntSt × List String)
     let g : GGrid Float := { shape := { nx := nx, per := per.map (· ≠ 0) }, w := w, minS := minS, fullS := fullS,
                              sum := fun _ => List.replicate nd 0.0, cnt := fun _ => 0 }
     let s' : IntSt := { g := g, dv := setDiv g sm, sm := sm }
-    some (s', [out ln "pnx" (isTok g.shape.pmfNx), out ln "npts" (iTok s'.pts.length)])
+    let coords : List Float := (List.range nd).flatMap fun i =>
+      let lo : Float := -1.25 - 0.5 * Float.ofNat i
+      [pmfCoord lo (w.getD i 1.0) 0, pmfCoord lo (w.getD i 1.0) ((g.shape.pmfNx.getD i 1) - 1)]
+    some (s', [out ln "pnx" (isTok g.shape.pmfNx), out ln "npts" (iTok s'.pts.length), out ln "pcoord" (fsTok coords)])
   | "i.acc" :: r =>
     let nd := s.g.shape.nd
     let (ix, r) := takeI nd r; let (f, _) := takeF nd r
